@@ -107,6 +107,8 @@ def _is_default(default, value):
     if default is None:
         return False
     if hasattr(default, "to_nplike"):  # xobject array
+        if not hasattr(default._itemtype, "_dtype"):
+            return False  # items are not numbers: always stored
         default = default.to_nplike()
     elif hasattr(default, "to_str"):  # xobject string
         default = default.to_str()
